@@ -1,6 +1,6 @@
 (* Properties_C06.v — C06: middleware is a fail-closed gate in front of all routing. *)
 From Coq Require Import String List Ascii ZArith.
-From QH Require Import Bytes Value SocketM Router SrvIO RouterSpec RouterProofs.
+From QH Require Import Bytes Value SocketM Router SrvIO RouterSpec RouterProofs Interleave.
 Import ListNotations.
 
 (* for EVERY tree, path, regexp engine and accept/refuse assignment: every consulted middleware
@@ -31,3 +31,12 @@ Example C06_nonvacuous :
   outcome (fun _ _ => RxNo) (Node [(1, true); (2, false); (3, true)]%Z [] [] 1%Z 7%Z) (B "x")
   = ([(1, true); (2, false)]%Z, TRefused 2%Z).
 Proof. reflexivity. Qed.
+
+(* several connections open at once, their operations interleaved in any order (a request arriving while a middleware is
+   still judging another one included): the gate decides every connection as it would alone - a refusal is never handed
+   to another connection, an acceptance never carried over *)
+Theorem C06_connections_independent : forall e p sched ss i s,
+  nth_error ss i = Some s ->
+  proj ev i (irun sock op ev (step e p) ss sched) = run sock op ev (step e p) s (ops_of op i sched).
+Proof. intros e p. exact (interleaving_independent sock op ev (step e p)). Qed.
+Print Assumptions C06_connections_independent.
